@@ -22,7 +22,7 @@ def _np_state_digest():
 
 @contextlib.contextmanager
 def installed(chooser, bundle="axis6", rw_maxiter=None, events=None, fault_steps=False, fault_attempts=False,
-              angle_options=None, seed=0, grid_default="round-robin"):
+              angle_options=None, seed=0, grid_default="round-robin", vec_default="first"):
     """Patch the random sources; yields a dict with bookkeeping. events: list that receives monitor events."""
     import polyply.src.build_system as bs
     import polyply.src.random_walk as rw
@@ -51,8 +51,14 @@ def installed(chooser, bundle="axis6", rw_maxiter=None, events=None, fault_steps
     # ---- vector index in _take_step
     orig_randint = random.randint
 
+    vec_calls = {"n": 0}
+
     def py_randint(a, b):
-        return a + chooser.choose("vec", b - a + 1, 0)
+        # default answer: first vector, or (for restraint systems, where a fixed answer can loop for ever) a vector that
+        # rotates with the number of draws so far - still a deterministic function of the choice prefix
+        default = 0 if vec_default == "first" else vec_calls["n"] * 5 + vec_calls["n"] // 7
+        vec_calls["n"] += 1
+        return a + chooser.choose("vec", b - a + 1, default)
     patch(random, "randint", py_randint)
     # ---- start grid index
     grid_calls = {"n": 0}
